@@ -26,7 +26,8 @@ def _side(s):
 
 
 def history(ctx, props=(), plan="single", kind=None, side=None, second="compete", depth=3, auto_borrow=None,
-            auto_repay=None, loan_symbol=None, second_auto_borrow=False, loan_extra_decimals=0, **cfg):
+            auto_repay=None, loan_symbol=None, second_auto_borrow=False, loan_extra_decimals=0, double_bar=False,
+            **cfg):
     w = World(ctx, props=props, **cfg)
     b, pre = w.feed_bar("b0")
     w.check("bar0", pre, b)
@@ -35,6 +36,9 @@ def history(ctx, props=(), plan="single", kind=None, side=None, second="compete"
         w.check("place1")
         b, pre = w.feed_bar("b1")
         w.check("bar1", pre, b)
+        if double_bar:
+            b, pre = w.feed_bar("b1x", advance=False)
+            w.check("bar1 again (second source, same instant)", pre, b)
         if depth >= 3:
             if ctx.flag("then_cancel"):
                 if o1 is None:
@@ -85,6 +89,21 @@ def history(ctx, props=(), plan="single", kind=None, side=None, second="compete"
                 w.check("loan2")
             b, pre = w.feed_bar("b2")
             w.check("bar2", pre, b)
+    elif plan == "loan_only":
+        # a loan living through a bar (interest accrues), then two repayment attempts
+        l1 = w.create_loan("l1", symbol=loan_symbol)
+        w.check("loan1")
+        b, pre = w.feed_bar("b1")
+        w.check("bar1", pre, b)
+        if l1 is not None:
+            w.repay(l1)
+            w.check("repay1")
+            w.repay(l1)
+            w.check("repay1 again")
+        w.place("o1", kind="limit", side=BUY)
+        w.check("place1")
+        ctx.cover("an order was accepted")
+        ctx.cover("a request was rejected: place")
     else:
         raise ValueError(plan)
     ctx.cover("end of history")
@@ -128,6 +147,13 @@ def standard_plans(tier, borrow_limit_orders=True):
     ps.append(dict(plan="loans", depth=2, bp=8, qp=2, lend="margin_base_only", namounts=2, closes=CLOSES,
                    kinds=["limit", "market"], sides=["sell"], auto_borrow=True, auto_repay=False, loan_symbol="BTC",
                    min_fee="5"))
+    # two bar events of one pair for the same instant, each granting its own liquidity (partial fills on both)
+    ps.append(dict(plan="single", depth=2, bp=0, qp=2, liq="vsi", vols=["10"], namounts=3, kinds=["limit"],
+                   double_bar=True))
+    # a loan, a bar (interest accrues), two repayment attempts
+    for lsym in ("USD", "BTC"):
+        ps.append(dict(plan="loan_only", depth=2, bp=8, qp=2, lend="margin", namounts=1, closes=CLOSES,
+                       kinds=["limit"], sides=["buy"], loan_symbol=lsym, min_interest="0.01"))
     if tier == "thorough":
         ps += [
             dict(plan="single", depth=3, bp=8, qp=2, fee="none"),
@@ -150,8 +176,10 @@ BOUNDS_QUICK = (
     "[depth 3] and (0,2) [depth 2]; single depth 2 under VolumeShareImpact(25 %, 10 %) with solver-chosen volumes "
     "{0, 10, 127.83333333, 100000}; pair (2 orders in one bar, second from {limit buy, market buy, limit sell, stop "
     "sell}); loans (margin lending, requirement 0.5, 7 %/day interest in USD: loan in USD or BTC, limit/market order "
-    "with each auto-borrow/auto-repay combination, bar; closes from {100, 31234.56}); percentage fee 0.25 % with "
-    "minimum 0.05")
+    "with each auto-borrow/auto-repay combination, bar; closes from {100, 31234.56}); rollback plan (lending "
+    "conditions for base symbols only); double-bar plan (a second bar event of the same pair for the same instant, "
+    "VolumeShareImpact, limit orders, 3 amounts); loan_only plan (loan, bar, repay, repay again, limit buy; minimum "
+    "interest 0.01); percentage fee 0.25 % with minimum 0.05")
 BOUNDS_THOROUGH = (
     "quick plans plus: fee schemes none / percentage without minimum, precisions (2,0), (8,8), 3 amounts, "
     "VolumeShareImpact at depth 3, pair with the second order from all 8 classes followed by cancels and a bar, loans "
